@@ -250,3 +250,82 @@ func runC20AllPairs(r *core.Run) {
 		}
 	})
 }
+
+// C20, ranges around every cased letter: (?i)[lo-hi] for a window of a few code points around each
+// member of each simple pair. A rune belongs to the class exactly when some member of its fold
+// orbit lies in [lo, hi] (orbits of any size; windows and probes touching U+0130 / U+0131, whose
+// ToLower / ToUpper leave their orbit, are left out). This walks every row of the engine's
+// lower-casing table with ranges that start or end inside it.
+func foldOrbit(r rune) []rune {
+	o := []rune{r}
+	for c := unicode.SimpleFold(r); c != r; c = unicode.SimpleFold(c) {
+		o = append(o, c)
+	}
+	return o
+}
+
+func rangeWindowLaw(lo, hi rune, opts int) (detail string, compared int) {
+	touchesDotless := func(a, b rune) bool { return a <= 0x131 && b >= 0x130 }
+	if touchesDotless(lo, hi) || lo < 0 || hi > unicode.MaxRune || (lo <= 0xDFFF && hi >= 0xD800) {
+		return "", 0
+	}
+	src := fmt.Sprintf(`^[\x{%X}-\x{%X}]$`, lo, hi)
+	re, err := regexp2.Compile(src, regexp2.RegexOptions(opts))
+	if err != nil {
+		return fmt.Sprintf("%q is rejected: %v", src, err), 0
+	}
+	probes := map[rune]bool{}
+	for r := lo - 3; r <= hi+3; r++ {
+		for _, q := range foldOrbit(r) {
+			probes[q] = true
+			probes[q-1], probes[q+1] = true, true
+		}
+	}
+	for p := range probes {
+		if p < 0 || p > unicode.MaxRune || (p >= 0xD800 && p <= 0xDFFF) || p == 'i' || p == 'I' || p == 0x130 || p == 0x131 {
+			continue
+		}
+		want := false
+		for _, q := range foldOrbit(p) {
+			want = want || (q >= lo && q <= hi)
+		}
+		got, err := re.MatchRunes([]rune{p})
+		if err != nil {
+			continue
+		}
+		compared++
+		if got != want {
+			return fmt.Sprintf("%q (options %#x) on %q (U+%04X): match=%v, but its case variants %U are %sin the range", src, opts, string(p), p, got, foldOrbit(p), map[bool]string{true: "", false: "not "}[want]), compared
+		}
+	}
+	return "", compared
+}
+
+func replayC20RangeWindow(w core.Witness) string {
+	lo, _ := w.Args["range_lo"].(float64)
+	hi, _ := w.Args["range_hi"].(float64)
+	d, _ := rangeWindowLaw(rune(lo), rune(hi), w.Options)
+	return d
+}
+
+func runC20RangeWindows(r *core.Run) {
+	pairs := simplePairs()
+	r.Parallel(len(pairs), func(i int, l *core.Local) {
+		for _, L := range pairs[i] {
+			for _, w := range [][2]rune{{L - 1, L}, {L, L + 1}, {L - 2, L + 2}, {L - 1, L + 1}, {L, L + 2}, {L - 2, L}} {
+				for _, o := range []int{int(regexp2.IgnoreCase), int(regexp2.IgnoreCase | regexp2.RightToLeft)} {
+					d, n := rangeWindowLaw(w[0], w[1], o)
+					l.Eval(int64(n))
+					l.Count("range_window_checks", int64(n))
+					if n > 0 {
+						l.Count("range_windows", 1)
+					}
+					if d != "" {
+						l.Violate(core.Violation{Kind: "ignorecase-range-membership", Detail: d, Witness: core.Witness{Pattern: fmt.Sprintf(`^[\x{%X}-\x{%X}]$`, w[0], w[1]), Options: o, Args: map[string]any{"range_lo": int(w[0]), "range_hi": int(w[1])}}})
+						return
+					}
+				}
+			}
+		}
+	})
+}
